@@ -104,7 +104,7 @@ DEFAULT_CONFIRM = {
     "c05_f64_std": ("numbers",),
     "c07_leaf_emissions": ("print",), "c07_escape_emissions": ("print",), "c07_char_emissions": ("print",),
     "c01_print_list_structure": ("print",),
-    "c14_ser_shapes": ("serde",), "c02_digit_loops": ("strings", "chars"),
+    "c08_vector_protocol": ("lists", "truncation"), "c14_ser_shapes": ("serde",), "c02_digit_loops": ("strings", "chars"),
     "c14_de_kind_tables": ("serde",), "c14_option": ("serde",), "c18_access_steps": ("serde",), "c04_ser_scalars": ("serde",),
     "c18_error_category": ("serde",), "c15_alist_lookup": ("alist",), "c07_write_discipline": ("printcheck",),
     "c06_symbol_scanners": ("tokens", "lists"), "c06_string_scanners": ("strings",), "c17_unchecked_sites": ("strings", "tokens"),
